@@ -2,5 +2,7 @@ import OdeVerif.Generated.DrawDecision
 import OdeVerif.Generated.Constants
 import OdeVerif.Model.Stiffness
 import OdeVerif.Model.Spikes
+import OdeVerif.Model.AnalyticIntegrator
 import OdeVerif.Driver
 import OdeVerif.Proofs.C14
+import OdeVerif.Proofs.C15
